@@ -21,7 +21,6 @@ RULE = (
 )
 ASSUMPTIONS = [
     "unpolarised parent; default (Wigner-rotation aware, r_boost) alignment",
-    "align_ref=center_mass is compared with center_mass=True (its reference is the frame the momenta are given in; with a moving parent and center_mass=False that frame is not the parent rest frame)",
     "pairs whose parameter-name sets differ are not comparable and are skipped, not failed",
     "tolerance as C01",
 ]
@@ -148,10 +147,14 @@ def run(ctx):
             compare("align_ref center_mass vs default", b, ps_lab, base_cfg=base_cm, label={"align_ref": "center_mass", "center_mass": True})
         except Exception as e:
             ctx.violation("align_ref center_mass vs default", ctx.exc_witness(e, card=cards.short(card)), mechanism="align_ref load raises")
-        # parent at rest: align_ref alone is admissible
+        # align_ref alone (center_mass left at its default False): parent at rest, and momenta given in a frame where the parent moves
         b2 = copy.deepcopy(cfg)
         b2["data"]["align_ref"] = "center_mass"
         compare("align_ref center_mass vs default", b2, ps, label={"align_ref": "center_mass", "parent": "at rest"})
+        for rz in (True, False):
+            b3 = copy.deepcopy(b2)
+            b3["data"]["random_z"] = rz
+            compare("align_ref center_mass vs default", b3, ps_lab, label={"align_ref": "center_mass", "center_mass": False, "parent": "half of the events moving", "random_z": rz})
         # (iii) z axis
         for rz in (True, False):
             b = copy.deepcopy(cfg)
